@@ -108,6 +108,16 @@ def has_unpaired_surrogate(evs):
     return False
 
 
+def unpaired_in_text(evs):
+    """an unpaired surrogate in a text node, an attribute value or a CDATA section (not only in a comment, PI or name)"""
+    for e in evs:
+        if e[0] in ("T", "C") and code_points(e[1]) is None:
+            return True
+        if e[0] == "S" and any(code_points(av) is None for an, av in e[2]):
+            return True
+    return False
+
+
 def has_surrogate(evs):
     return any(is_high(u) or is_low(u) for e in evs for x in e[1:] for u in flat_units(x))
 
@@ -620,7 +630,9 @@ def evaluate(ctx, cases, impl, model):
             # no serializer may write a document for such a tree
             orc.append({"case": line, "what": "legacy FormatterToXML raised no error for a tree with an unpaired surrogate; its output: %s" % (
                             oldp[:200] if oldp.startswith("PARSEERR") else "parses to " + oldp[:200]),
-                        "known": "K-new-4"})   # every encoding: raw under UTF-8/UTF-16/UTF-32, '&#56832;' otherwise
+                        "known": "K-new-4" if unpaired_in_text(evs) else "K-new-8"})
+            # K-new-4: text, attribute value, CDATA (every encoding: raw under UTF-8/UTF-16/UTF-32, '&#56832;' otherwise);
+            # K-new-8: the legacy serializer checks nothing in comments, PIs and names
     return corr, orc
 
 
@@ -683,6 +695,15 @@ def run(ctx):
     if not ok_h:
         ctx.broken.append("harness does not compile against the working tree: " + hlog[-500:])
         return ctx.finish(LEVEL)
+
+    # the legacy serializer FormatterToXML inside the model (built as its own part: props/C04_legacy.py)
+    try:
+        import importlib
+        legacy_part = importlib.import_module("props.C04_legacy")
+    except ImportError:
+        legacy_part = None
+    if legacy_part is not None:
+        legacy_part.run_part(ctx)
 
     known = {k["key"]: k for k in ctx.known.for_property("C04")}
     corpus = []
